@@ -5,17 +5,18 @@
    [classify]  the control skeleton of parse_eblif / parse_model_helper / parse_model_ports /
                parse_name / parse_instance_info: which handler consumes which line.  It depends on
                the tokens only (never on the netlist built so far), so it is a mode machine over
-               the lines:  MTop (outside a model), MHdr ph (header: .inputs*, then .outputs*, then
-               .clock*, entered by peeking), MPlain (statement loop of parse_model_helper),
+               the lines:  MTop (outside a model), MHdr (header: .inputs / .outputs / .clock lines in
+               any order and number), MPlain (statement loop of parse_model_helper),
                MRows (truth-table rows after .names, check_if_init_values on the peeked token),
-               MInfo (parse_instance_info: .param/.cname/.attr and blank lines).
+               MInfo (parse_instance_info: .param/.cname/.attr).  The three peeking loops look
+               through peek_statement, which reads comment lines and skips blank lines: those never
+               leave MHdr / MRows / MInfo.
                Lines no handler wants are skipped token by token by the Python loops; they are
                dropped here, provided none of their tokens is a keyword the loop would react to
                (otherwise EOutside: the reader would resynchronise in the middle of a line).
-               At end of input the peeks of parse_model_ports / parse_name / parse_instance_info
-               raise StopIteration (modes MHdr, MRows, MInfo: statement SStop, so that the
-               exception comes after the effects and exceptions of the statements before it); in
-               MPlain the model is closed as if by .end.
+               At end of input peek_statement answers None and has_next ends parse_model_helper:
+               in every mode inside a model the model is closed as if by .end (SStop is no longer
+               produced).
    [exec]      the effect of every handler on the netlist under construction.
    [finish]    set_subcircuit_names_by_convention, insert_comments_into_netlist_data,
                add_blackbox_definitions.
@@ -40,7 +41,7 @@ Inductive stmt :=
 | SConn (a b : str)
 | SBlackbox
 | SEnd
-| SStop.          (* end of input where parse_model_ports / parse_name / parse_instance_info peek: StopIteration *)
+| SStop.          (* before the repair: end of input where the reader peeked (StopIteration); no longer produced *)
 
 Inductive mode := MTop | MHdr (ph : nat) | MPlain | MRows | MInfo.
 
@@ -85,7 +86,8 @@ Definition cl_info (l : line) : result (list stmt * mode) :=
   match l with
   | [] => Ok ([], MInfo)
   | t :: rest =>
-    if str_eqb t k_param then
+    if str_eqb t k_hash then Ok ([SComment rest], MInfo)        (* peek_statement: the comment is read, the info block goes on *)
+    else if str_eqb t k_param then
       match rest with k :: v :: extra => after_info (SParam k v) extra | _ => Error EOutside end
     else if str_eqb t k_cname then
       match rest with n :: extra => after_info (SCname n) extra | _ => Error EOutside end
@@ -103,18 +105,23 @@ Definition cl_rows (l : line) : result (list stmt * mode) :=
       | [u] => Ok ([SCover t (Some u)], MRows)
       | _ => Error EOutside
       end
+    else if str_eqb t k_hash then Ok ([SComment rest], MRows)   (* a comment inside a truth table *)
     else cl_info l
-  | [] => cl_info l
+  | [] => Ok ([], MRows)
   end.
 
+(* parse_model_ports: .inputs / .outputs / .clock lines in any order and number; comment lines and
+   blank lines between them are read by peek_statement and do not end the header.  [ph] is no longer
+   looked at (it is 0 throughout) *)
 Definition cl_hdr (ph : nat) (l : line) : result (list stmt * mode) :=
   match l with
   | t :: rest =>
-    if str_eqb t k_inputs && Nat.eqb ph 0 then Ok ([SInputs rest], MHdr 0)
-    else if str_eqb t k_outputs && Nat.leb ph 1 then Ok ([SOutputs rest], MHdr 1)
-    else if str_eqb t k_clock && Nat.leb ph 2 then Ok ([SClock rest], MHdr 2)
+    if str_eqb t k_hash then Ok ([SComment rest], MHdr ph)
+    else if str_eqb t k_inputs then Ok ([SInputs rest], MHdr ph)
+    else if str_eqb t k_outputs then Ok ([SOutputs rest], MHdr ph)
+    else if str_eqb t k_clock then Ok ([SClock rest], MHdr ph)
     else cl_plain l
-  | [] => cl_plain l
+  | [] => Ok ([], MHdr ph)
   end.
 
 Definition cl_top (l : line) : result (list stmt * mode) :=
@@ -142,8 +149,7 @@ Fixpoint classify_from (md : mode) (d : doc) : result (list stmt) :=
   | [] =>
     match md with
     | MTop => Ok []
-    | MPlain => Ok [SEnd]
-    | _ => Ok [SStop]
+    | _ => Ok [SEnd]          (* the end of the file closes the model, wherever it comes *)
     end
   | l :: d' =>
     do '(ss, md') <- cl_line md l;
@@ -151,7 +157,21 @@ Fixpoint classify_from (md : mode) (d : doc) : result (list stmt) :=
     Ok (ss ++ rest)
   end.
 
-Definition classify (d : doc) : result (list stmt) := classify_from MTop d.
+(* What Tokenizer.generate_tokens hands over: on a statement line a word that starts with "#" begins a
+   comment and is dropped with the rest of the line, and "#text" at the start of a line is read as the
+   comment "# text".  So no word of a statement line starts with "#", and a comment line starts with the
+   word "#".  (Only a backslash continuation that runs into a comment line can produce another line;
+   such a document is outside the modelled fragment.) *)
+Definition hash_word (t : str) : bool := match t with c :: _ => N.eqb c 35 | [] => false end.
+Definition line_tokenized (l : line) : bool :=
+  match l with
+  | [] => true
+  | t :: _ => str_eqb t k_hash || forallb (fun u => negb (hash_word u)) l
+  end.
+Definition tokenized (d : doc) : bool := forallb line_tokenized d.
+
+Definition classify (d : doc) : result (list stmt) :=
+  if tokenized d then classify_from MTop d else Error EOutside.
 
 (* ---------- the reader's state ---------- *)
 Record st := mkSt {
